@@ -15,6 +15,14 @@ import (
 // ---- value pools (branch directed: every type, boundary values, awkward strings) ----
 
 var strPool = []string{"", "a", "b", "host", "é", "日本語", "a b", "x,y=z", "l1\nl2", "\x00", "%", "=", "|;~!", "tab\there", "\"q\"", "\\", "cpu\n", "a=b,c"}
+// boundary code points of every UTF-8 length (all valid) …
+var utf8Edge = []string{"\xc2\x80", "\xdf\xbf", "\xe0\xa0\x80", "\xed\x9f\xbf", "\xee\x80\x80", "\xef\xbf\xbd", "\xf0\x90\x80\x80", "\xf4\x8f\xbf\xbf", "\xe1\x80\x80x"}
+
+// … and byte strings that are NOT valid UTF-8 (lone continuation, overlong, surrogate, above U+10FFFF, truncated,
+// invalid lead bytes): legal Go strings, known finding invalid-utf8
+var badStr = []string{"\xff", "a\x80", "\xc0\x80", "\xc1\xbf", "\xe0\x9f\xbf", "\xed\xa0\x80", "\xed\xbf\xbf", "\xf0\x8f\xbf\xbf",
+	"\xf4\x90\x80\x80", "\xf5\x80\x80\x80", "\xe2\x82", "\xf0\x9f\x98", "ok\xc3", "\xc3(", "\xe2\x28\xa1", "\xf8\x88\x80\x80\x80"}
+
 var keyPool = []string{"a", "b", "c", "host", "dc", "é", "a b", "k,1", "x=y", "", "value", "usage_idle", "z"}
 var namePool = []string{"cpu", "m", "", "é", "a b", "n\nx", "mem,x=1"}
 var intPool = []int64{0, 1, -1, 42, 1 << 53, 1<<53 + 1, -(1<<53 + 1), math.MaxInt64, math.MinInt64, 127, 128, -128, 1 << 31, 1 << 32}
@@ -24,6 +32,8 @@ var timePool = []int64{0, 1, -1, 1500000000000000000, 1500000000000000001, math.
 
 func genString(r *kit.Rand, thorough bool) string {
 	switch k := r.Intn(100); {
+	case k < 8:
+		return kit.Pick(r, utf8Edge)
 	case k < 70:
 		return kit.Pick(r, strPool)
 	case k < 85:
@@ -159,6 +169,25 @@ func genBatch(r *kit.Rand, thorough bool) inBatch {
 		}
 		b.pts = append(b.pts, inBP{tags: tags, fields: genFields(r, thorough), time: genTime(r)})
 	}
+	// the header as GroupByNode builds it: SetTagsAndDimensions(tags, sorted dimension names)
+	if k := r.Intn(40); k < 10 {
+		b.hasSet = true
+		for _, x := range sortedKeys(b.tags) {
+			if r.Chance(2, 3) {
+				b.setDims = append(b.setDims, x)
+			}
+		}
+		if k == 0 {
+			b.setDims = append(b.setDims, "zz-absent")
+		}
+		if k == 1 {
+			// groupBy('a', 'a'): determineTagNames sorts but does not dedupe (known finding batch-dims-rederived)
+			if len(b.setDims) == 0 {
+				b.setDims = []string{"dup"}
+			}
+			b.setDims = append([]string{b.setDims[0]}, b.setDims...)
+		}
+	}
 	switch k := r.Intn(10); {
 	case k < 6:
 		b.sizeHint = n
@@ -246,6 +275,17 @@ func genWire(r *kit.Rand, huge bool, thorough bool, isReq bool, big bool) string
 		return renderResponse(&agent.Response{Message: &agent.Response_Snapshot{Snapshot: &agent.SnapshotResponse{Snapshot: b}}})
 	}
 	k := r.Intn(100)
+	if r.Chance(1, 12) {
+		// proto.Marshal must reject exactly the strings utf8.Valid rejects (model: validUTF8)
+		bad := kit.Pick(r, badStr)
+		if r.Chance(1, 3) {
+			bad = kit.Pick(r, utf8Edge) // valid after all
+		}
+		if isReq {
+			return "q:N|" + kit.Esc(bad) + "|n"
+		}
+		return "r:X|" + kit.Esc(bad)
+	}
 	if isReq {
 		switch {
 		case k < 45:
@@ -339,13 +379,42 @@ func genEchoCase(r *kit.Rand, thorough bool, i int) []string {
 		n = 0
 	}
 	pendingSnap := false
+	poison := -1 // one message of a few sessions carries a string that is not valid UTF-8
+	if n > 0 && r.Chance(1, 20) {
+		poison = r.Intn(n)
+	}
 	for j := 0; j < n; j++ {
+		if j == poison && pendingSnap {
+			ops = append(ops, "join") // let the concurrent Snapshot() finish before the server aborts
+			pendingSnap = false
+		}
 		isPoint := mode == 0 || (mode == 2 && r.Bool())
 		if isPoint {
-			ops = append(ops, "pt "+genPoint(r, thorough).token())
+			p := genPoint(r, thorough)
+			if j == poison {
+				switch r.Intn(4) {
+				case 0:
+					p.fields["bad"] = kit.Pick(r, badStr)
+				case 1:
+					p.tags = models.Tags{"t": kit.Pick(r, badStr)}
+				case 2:
+					p.name = kit.Pick(r, badStr)
+				default:
+					p.fields[kit.Pick(r, badStr)] = int64(1)
+				}
+			}
+			ops = append(ops, "pt "+p.token())
 		} else {
 			b := genBatch(r, thorough)
-			if k := r.Intn(9); k == 0 && !pendingSnap {
+			if j == poison {
+				if len(b.pts) > 0 && r.Bool() {
+					b.pts[len(b.pts)-1].fields = models.Fields{"bad": kit.Pick(r, badStr)}
+				} else {
+					b.tags = models.Tags{"t": kit.Pick(r, badStr)}
+					b.hasSet = false
+				}
+			}
+			if k := r.Intn(9); k == 0 && !pendingSnap && j != poison {
 				ops = append(ops, fmt.Sprintf("ubs %s %d %s", b.token(), r.Intn(len(b.pts)+1), hexBytes(r, thorough)))
 			} else if k < 3 {
 				ops = append(ops, "ub "+b.token())
